@@ -63,6 +63,17 @@ def execSide (s : SideState) (stream op : String) (a : List String) : SideState 
     match Side.SR.newItem (unhex p) (unhex d) (unhex n) with
     | none => (s, "err")
     | some it => ({ s with table := Side.SR.insert s.table it }, "ok")
+  | "route", "cfg", _ :: triples =>
+    -- the YAML text (first field) is for the implementation; the same entries follow flattened as protocol/dest/next-hop
+    let rec build (t : Side.SR.Table) : List String → Option Side.SR.Table
+      | p :: d :: n :: rest =>
+        match Side.SR.newItem (unhex p) (unhex d) (unhex n) with
+        | none => build t rest          -- AddRouteItem's error is ignored by createPreConfigRoute
+        | some it => build (Side.SR.insert t it) rest
+      | _ => some t
+    match build [] triples with
+    | some t => ({ s with table := t }, "ok")
+    | none => (s, "err")
   | "route", "find", [h] =>
     (s, match Side.SR.findRoute s.table (unhex h) with
       | none => "none"
@@ -151,6 +162,7 @@ def specSide (s : SideState) (stream op : String) (a impl : List String) : SideS
       ({ s with rrObs := o }, errs.map ("C05 " ++ ·))
   | "route", "new", _ => ({ s with routeSeen := [] }, [])
   | "route", "add", _ => ({ s with routeSeen := [] }, [])
+  | "route", "cfg", _ => ({ s with routeSeen := [] }, [])
   | "route", "find", [h] =>
     -- the answer is the same every time the same host is looked up (whatever was looked up in between)
     let (s, stab) : SideState × List String := match s.routeSeen.find? (fun e => e.1 == h) with
